@@ -302,8 +302,15 @@ converting numbers, trailing garbage rejected, `p:*` matching, per-element
 `@*[n]`, document-order first node for name(ancestor::*) — the open C14
 finding, for which the check then simply prints no KNOWN-FINDING line —, and
 `'1' < 2` in written order); these change observable behaviour, but none of
-it is behaviour a listed property fixes, and again no check raised an alarm:
-{len(benign)} changes x 17 checks, all exit 0.
+it is behaviour a listed property fixes. The whole matrix was run again at
+the end, against the checks as strengthened by all eight seeding rounds and
+the repaired tree, in a sandbox copy (`tools/benign_sandbox.sh`: a worktree of
+/verif whose module `replace` points at a worktree of /repo, so that /repo
+itself stays untouched): {len(benign)} changes x 17 quick checks. One alarm was
+raised — C13 on improvement I4 (trailing input rejected) — and it was a false
+alarm of a check added in round 8 (§11.5, last entry); after the correction
+the pair was re-run: every check exits 0 on all {len(benign)} changes. One
+refactoring (w1-R2) had to be re-based by hand onto fix b2bf495.
 
 ```
 ''' + '\n'.join(benign) + '''
@@ -311,12 +318,21 @@ it is behaviour a listed property fixes, and again no check raised an alarm:
 
 ### 11.8 Measured cost (16 cores, unchanged tree)
 
-Quick tier, wall seconds: C01 24, C02 15, C03 28, C04 43, C05 25, C06 17, C07 10,
-C08 6, C09 2, C10 24, C11 14, C12 24, C13 32, C14 9, C15 3, C16 8, C17 <1
-(setup: ~12 s warm, ~70 s cold). Thorough tiers run minutes each (C01 5.5 min,
-1.48·10^9 evaluations; C02 12.6 min, 1.2·10^9; C07 3.5 min, 8.8·10^8; C08 5.8 min,
-7.5·10^8; C14 2 min, 6.4·10^8; C03 stops at its 15-minute budget with
-exhaustive=false after 1.1·10^9 evaluations).
+Quick tier after eight seeding rounds, wall seconds on the otherwise idle
+sandbox (final run): C01 52, C02 55, C03 72, C04 64, C05 91, C06 30, C07 32,
+C08 22, C09 4, C10 43, C11 30, C12 45, C13 55, C14 41, C15 5, C16 10, C17 2 —
+about 11 minutes for all 17 (5 minutes before rounds 6-8 roughly doubled the
+spaces; setup: ~12 s warm, ~70 s cold). The quick budgets (internal deadlines,
+150-300 s) leave a factor 2-4 of slack. Thorough tiers, last complete runs
+(`vp run`, commit 1ae6054, with two other jobs on the machine): C06 12 min
+(6.8*10^7 strings), C10 7 min (1.5*10^8 parses, 6.7*10^7 distinct), C16 9 min,
+C11 4 min (3.0*10^8), C12 12 min (1.5*10^9), C02 21 min (1.7*10^9), C03 26 min
+(1.7*10^9), all exhaustive; C08 and C05 stopped at their budgets
+(exhaustive=false; C05: 2.5*10^8 schedules in 60 min). The spaces added after
+that commit were run at the thorough tier separately (C01 S2xCase3, C02 P7/P8,
+C03 Pos5/Pos6, C16 RegexPerNode-3, C13 Identity, C11 U4/U7, and all of C14,
+C09, C07, C15): no violation; C14 and C07 stopped at their then budgets, which
+were raised afterwards.
 '''
 s=open('/verif/DESIGN.md').read()
 if '## 11. Implementation report' in s:
